@@ -204,6 +204,20 @@ def chooseProtocol (offered : Option (List Byte)) : Bool × List Byte :=
     else if hasInfix bBinary p then (false, bBinary) else (false, [])
   | none => (false, [])
 
+/-- the comma-separated elements of a `Sec-WebSocket-Protocol` value (blanks not yet stripped) -/
+def splitComma : List Byte → List (List Byte)
+  | [] => [[]]
+  | c :: r =>
+    if c = 44 then [] :: splitComma r
+    else match splitComma r with
+      | h :: t => (c :: h) :: t
+      | [] => [[c]]
+
+def isBlank (c : Byte) : Bool := c == 32 || c == 9
+def stripBlanks (s : List Byte) : List Byte := ((s.dropWhile isBlank).reverse.dropWhile isBlank).reverse
+/-- the offered sub-protocol tokens -/
+def offerTokens (p : List Byte) : List (List Byte) := (splitComma p).map stripBlanks
+
 /-- everything after the read loop -/
 def finishHandshake (sha1 : List Byte → List Byte) (s : Scan) (unread : List Byte) : HsResult :=
   if !s.version then .fail else
